@@ -246,13 +246,47 @@ theorem derivers_wrap_in_order :
 
 open Pyr.Gen.C18 in
 /-- The sorters the configurator builds, the keyword mapping of the `add` calls (`under ↦ after`,
-`over ↦ before`), and `Tweens.__call__` have the shapes the model assumes. -/
+`over ↦ before`), `Tweens.__call__`, and the documented defaults of `add_view_deriver` (`under='decorated_view'`,
+`over='rendered_view'`) are what the model assumes (all observed by running the tree under test). -/
 theorem configurator_shapes :
     deriverSorter = ⟨none, some "INGRESS", "INGRESS", "VIEW"⟩ ∧
     tweenSorter = ⟨none, some "INGRESS", "INGRESS", "MAIN"⟩ ∧
     deriverAddMapping = "before=over,after=under" ∧ tweenAddMapping = "after=under,before=over" ∧
     tweenCall = "explicit-else-implicit,reversed-fold" ∧ applyReversed = true ∧
-    deriverMappedRule = true ∧ deriverSortedTuples = true ∧ defaultTweens = ["EXCVIEW"] := by decide
+    deriverMappedRule = true ∧ deriverSortedTuples = true ∧ defaultTweens = ["EXCVIEW"] ∧
+    deriverDefaultUnder = "decorated_view" ∧ deriverDefaultOver = "rendered_view" := by decide
+
+open Pyr.Gen.C18 in
+/-- **`add_view_deriver`'s normalisation is the one OBSERVED on the tree under test**: on each of the 24 probe
+calls (defaults, single names, unsorted tuples, duplicates, `VIEW` / `INGRESS` / `mapped_view` inside tuples,
+reserved names) the model rejects exactly when the real directive raised `ConfigurationError`, and otherwise
+hands the sorter the `after` / `before` tuples the real sorter received. -/
+theorem deriver_normalisation_as_probed :
+    normProbes.length = 24 ∧
+    ∀ p ∈ normProbes, rejectsDeriver p.raw = p.rejected ∧
+      (p.rejected = false → deriverAddArgs p.raw = (p.after, p.before)) := by decide +kernel
+
+open Pyr.Gen.C18 in
+/-- **The model's sorter after the observed default calls is the real sorter**: replaying the calls
+`add_default_view_derivers` was observed to make through the model of `add_view_deriver` and of
+`TopologicalSorter.add` gives the `names`, `order`, `name2after`, `name2before`, `req_after`, `req_before`
+read from the real `IViewDerivers` utility. -/
+theorem default_sorter_state_as_probed :
+    let s := defaultDeriverSorter
+    let id := nameId deriverSorter.first deriverSorter.last defaultDeriverNames
+    s.names = defaultSorterState.map (fun e => id e.name) ∧
+    s.order = probedSorterOrder ∧
+    s.names.map (fun n => (n, alookup n s.n2after, alookup n s.n2before)) = probedSorterTables ∧
+    s.reqAfter = (defaultSorterState.filter (·.reqAfter)).map (fun e => id e.name) ∧
+    s.reqBefore = (defaultSorterState.filter (·.reqBefore)).map (fun e => id e.name) ∧
+    defaultSorterState.length = 7 := by decide +kernel
+
+open Pyr.Gen.C18 in
+/-- **`Tweens.__call__` composes as OBSERVED**: for the 8 probed (explicit, implicit) combinations the trace of
+one call of the handler the real `Tweens` object built is the model's `compose (tweensUse explicit implicit)`. -/
+theorem tween_call_as_probed :
+    tweenCallProbes.length = 8 ∧
+    ∀ p ∈ tweenCallProbes, (compose (tweensUse p.1 p.2.1) [Ev.core]).map evCode = p.2.2 := by decide +kernel
 
 /-! ### non-vacuity -/
 
